@@ -1,6 +1,11 @@
 package e2
 
 import (
+	"encoding/json"
+	"fmt"
+	"time"
+
+	"github.com/anishathalye/porcupine"
 	"vctl/internal/e1"
 	"vctl/internal/report"
 )
@@ -9,7 +14,7 @@ import (
 func RunC03(tier string) int {
 	run := report.New("C03", tier, "exploration",
 		"(a) dag.Walker in synctest bubbles under the race detector over seeded graph families x selections x latencies x GOMAXPROCS, judged on a logical-clock log kept at the callback boundary (start only after every dependency ended ok, at most one call per node); "+
-			"(b) the real binary on latency-shaped generated graphs with num_workers 1..8: order and overlap of S/E lines in the O_APPEND trace, executions per target, and the dependency-output digests each command recorded; "+
+			"(c) maps.MutexMap Lock/Unlock histories from 3-7 goroutines on 3 names checked with porcupine against a per-name mutex; (b) the real binary on latency-shaped generated graphs with num_workers 1..8: order and overlap of S/E lines in the O_APPEND trace, executions per target, and the dependency-output digests each command recorded; "+
 			"non-trivial = walker case with failures/cancel/registration delay, or process build with >= 2 executed commands; distinct = shape + observed order")
 	walkerPart(run, tier, "C03")
 	st, err := e1.Prepare(run, false)
@@ -19,6 +24,47 @@ func RunC03(tier string) int {
 	}
 	defer st.Cleanup()
 	e1.ProcessSchedPart(run, st, tierN(tier, 24, 300), map[string]bool{"order": true, "width": true, "once": true, "view": true})
+	// (c) maps.MutexMap (per-target mutual exclusion of hashing and output load/write)
+	err = StoreSweep(run, "TestMutexMap", tierN(tier, 40, 400), true, func(o Outcome) {
+		run.Eval(1)
+		run.Count("mutexmap_histories", 1)
+		if o.Res == nil {
+			if o.Crash != "" && o.Crash != "race-only" {
+				run.Violation("mutexmap "+o.Crash, "MutexMap driver died: "+firstLines(o.Detail, 5), map[string]any{"detail": o.Detail})
+			}
+			return
+		}
+		var res struct {
+			ID       int        `json:"id"`
+			Clients  int        `json:"clients"`
+			Overlaps int        `json:"overlaps"`
+			History  []atomicOp `json:"history"`
+		}
+		if json.Unmarshal(o.Res, &res) != nil {
+			return
+		}
+		if res.Overlaps > 0 {
+			run.Violation("mutexmap two-holders-of-one-name", fmt.Sprintf("%d times two goroutines were inside the section of the same name", res.Overlaps), map[string]any{"history": res.History})
+			return
+		}
+		var ops []porcupine.Operation
+		for _, h := range res.History {
+			ops = append(ops, porcupine.Operation{ClientId: h.Client, Input: h, Output: "", Call: h.Call, Return: h.Ret})
+		}
+		run.Count("mutexmap_operations", len(ops))
+		r, _ := porcupine.CheckOperationsVerbose(mutexModel, ops, 60*time.Second)
+		switch r {
+		case porcupine.Ok:
+			run.Nontrivial(fmt.Sprintf("mutexmap|%d|%d", res.Clients, len(ops)))
+		case porcupine.Illegal:
+			run.Violation("mutexmap not-linearizable", "Lock/Unlock history of maps.MutexMap is not linearizable against a per-name mutex", map[string]any{"history": res.History})
+		default:
+			run.Inconclusive("porcupine timed out")
+		}
+	})
+	if err != nil {
+		run.Infra(err.Error())
+	}
 	run.Assume("a command's E line is written before it exits, which happens-before its dependants are released, which happens-before their S line: O_APPEND order is a linearization")
 	return run.Finish()
 }
@@ -39,4 +85,30 @@ func RunC05(tier string) int {
 	walkerPart(run, tier, "C05")
 	run.Assume("exec.CommandContext refuses to start a command once its context is cancelled, so a command that started after the walk.failfast event is a violation, while one attempted before it may still run")
 	return run.Finish()
+}
+
+var mutexModel = porcupine.Model{
+	Partition: func(history []porcupine.Operation) [][]porcupine.Operation {
+		m := map[string][]porcupine.Operation{}
+		for _, op := range history {
+			k := op.Input.(atomicOp).Key
+			m[k] = append(m[k], op)
+		}
+		var out [][]porcupine.Operation
+		for _, v := range m {
+			out = append(out, v)
+		}
+		return out
+	},
+	Init: func() any { return false },
+	Step: func(state, input, output any) (bool, any) {
+		held := state.(bool)
+		switch input.(atomicOp).Kind {
+		case "lock":
+			return !held, true
+		case "unlock":
+			return held, false
+		}
+		return true, held
+	},
 }
